@@ -1,7 +1,7 @@
 #!/bin/bash
 # usage: run_all.sh [tier]  — runs every claimed check once, prints one line per check
 TIER=${1:-quick}
-cd /verif
+cd "$(dirname "$0")/.."
 for id in $(python3 -c "import json;print(' '.join(c['property_id'] for c in json.load(open('MANIFEST.json'))['checks']))"); do
   S=$(date +%s)
   OUT=$(timeout 7200 ./run_check.sh $id $TIER 2>&1); RC=$?
